@@ -286,6 +286,37 @@ def do_include(ctx, schema, rng, dirpath, files=None):
         include_validator(ctx, schema, dirpath, files, top)
 
 
+def do_include_own_names(ctx, schema, rng, dirpath):
+    """The same kind of include graph read through a loader subclass whose
+    normalizeURL() gives the application's own resource names a meaning
+    ('site:a' is the file a.conf of the site directory): includes are
+    written with those names, cycles included."""
+    import ZConfig
+    import ZConfig.loader
+    files = include_case(rng, dirpath)
+    shutil.rmtree(dirpath, ignore_errors=True)
+    os.makedirs(os.path.join(dirpath, "sub"))
+    for n in list(files):
+        t = files[n]
+        for m in ("a", "b", "c"):
+            t = t.replace("%%include %s.conf\n" % m, "%%include site:%s\n" % m)
+        files[n] = t
+        with open(os.path.join(dirpath, n), "w") as f:
+            f.write(t)
+
+    class SiteLoader(ZConfig.loader.ConfigLoader):
+        def normalizeURL(self, url):
+            if url.startswith("site:"):
+                url = os.path.join(dirpath, url[5:] + ".conf")
+            return ZConfig.loader.ConfigLoader.normalizeURL(self, url)
+    ctx.res.evaluations += 1
+    ctx.res.count("include_cases_by_own_resource_names")
+    cls, e = run_entry(lambda: SiteLoader(schema).loadURL("site:a"))
+    report(ctx.res, "include", ["own-names"],
+           {"files": files, "family": "include", "entry": "own-names"},
+           cls, e)
+
+
 class PipeStdin(io.StringIO):
     def isatty(self):
         return False
@@ -528,6 +559,8 @@ def run_shard(ctx):
                             "c.conf": ""})
     for i in range(N_INCLUDE[ctx.tier] // ctx.nshards):
         do_include(ctx, dschema, rng, d)
+        if i % 3 == 0:
+            do_include_own_names(ctx, dschema, rng, d)
     # (5) extreme sizes: what a generator or a careless merge produces.
     # Nothing here is malformed, so each text loads - in particular without
     # RecursionError or MemoryError (the recursion limit is the default)
@@ -872,6 +905,15 @@ def replay(ctx, case):
                                   "%include " + os.path.join(d, n) + "\n")
             cls, e = run_entry(lambda: ZConfig.loadConfigFile(
                 schema, io.StringIO(top)))
+        elif case.get("entry") == "own-names":
+            import ZConfig.loader
+
+            class SiteLoader(ZConfig.loader.ConfigLoader):
+                def normalizeURL(self, url):
+                    if url.startswith("site:"):
+                        url = os.path.join(d, url[5:] + ".conf")
+                    return ZConfig.loader.ConfigLoader.normalizeURL(self, url)
+            cls, e = run_entry(lambda: SiteLoader(schema).loadURL("site:a"))
         else:
             cls, e = run_entry(lambda: ZConfig.loadConfig(
                 schema, os.path.join(d, "a.conf")))
